@@ -320,6 +320,20 @@ func main() {
 				if r2 != rho || t12 != t1 {
 					c.Fail(i, "pk-roundtrip", nil)
 				}
+				// history: a second key with the SAME rho and another t1 must decode to its own t1
+				t1b := t1
+				for a := 0; a < 8; a++ {
+					for b := 0; b < 256; b++ {
+						t1b[a][b] = (t1[a][b] + int32(1+a+b)) % 1024
+					}
+				}
+				pkb := dilithium.VerifPackPk(rho, &t1b)
+				if r3, t13 := dilithium.VerifUnpackPk(&pkb); r3 != rho || t13 != t1b {
+					c.Fail(i, "pk-roundtrip-second-key-same-rho", nil)
+				}
+				if r4, t14 := dilithium.VerifUnpackPk(&pk); r4 != rho || t14 != t1 {
+					c.Fail(i, "pk-roundtrip-first-key-again", nil)
+				}
 				sk := dilithium.VerifPackSk(rho, tr, key, &t0, &s1, &s2)
 				exps := append(append(append([]byte(nil), rho[:]...), key[:]...), tr[:]...)
 				for a := 0; a < 7; a++ {
